@@ -271,6 +271,29 @@ class ConcE:
     def fold_state(self, name, data, j, unfold=False):
         raise Vacuous()
 
+    def float(self, name, ch):
+        import struct
+        n = {'e': 2, 'f': 4, 'd': 8}[ch]
+        def gen():
+            while True:
+                bits = self.gen.r.getrandbits(8 * n)
+                v = struct.unpack('>' + ch, bits.to_bytes(n, 'big'))[0]
+                if v == v:            # not NaN
+                    return bits
+        bits = self._get(name, gen)
+        return struct.unpack('>' + ch, int(bits).to_bytes(n, 'big'))[0]
+
+    def float_be_bytes(self, v, ch):
+        import struct
+        return list(struct.pack('>' + ch, v))
+
+    def float_eq(self, a, b, ch):
+        import struct
+        return struct.pack('>' + ch, a) == struct.pack('>' + ch, b)
+
+    def tolist(self, seq):
+        return list(seq)
+
     def as_bytes(self, seq):
         return bytes(seq)
 
